@@ -17,6 +17,11 @@ Toks(ids) == [i \in 1..Len(ids) |-> TokOf[ids[i]]]
 MCVarVal == ("x" :> <<5, 1>> @@ "x_1" :> <<7, 1>>)
 MCFuncArity == ("f" :> 1 @@ "g" :> 2)
 MCSufVal == ("k" :> <<1000, 1>> @@ "%" :> <<1, 100>>)
+\* the empty scope ("names resolve ... to the SUPPLIED variables, constants and functions": when nothing is supplied,
+\* nothing resolves -- the adapter spells the names as the library's own defaults: pi, e, i, sqrt, arctan2, %)
+MCNoVars == [n \in {} |-> <<0, 1>>]
+MCNoFuncs == [n \in {} |-> 0]
+MCNoSufs == [n \in {} |-> <<0, 1>>]
 
 RECURSIVE SeqsOfLen(_)
 SeqsOfLen(n) == IF n = 0 THEN {<<>>} ELSE {Append(s, a) : s \in SeqsOfLen(n - 1), a \in Ids}
